@@ -43,8 +43,8 @@ CHECKS = [
         "Trusted: the model daemon (cancellation is a barrier; direct-over-recursive is refused as in go-ipfs), gorpc local calls, the synctest bubble and the patched runtime. Interleavings inside one simulated instant are chosen by the runtime tie-break seed, not enumerated.",
         "DESIGN.md §6 C05", "trackersim"),
     chk("C06", "exploration",
-        "Same histories as C05; on every quiescent peer Status(cid) and StatusAll are compared by class with each other and with the facts (pinset entry, daemon content, outcome of the last operation), and 19 filters are checked against the filter law. Sampling, not proof.",
-        "Views are compared by class, so pin_error vs unexpectedly_unpinned is agreement. The cluster-wide peer-map clause is exercised by clustersim when built; until then only the per-peer clauses are decided.",
+        "Part 1 (trackersim): same histories as C05; on every quiescent peer Status(cid) and StatusAll are compared by class with each other and with the facts (pinset entry, daemon content, outcome of the last operation), and 19 filters are checked against the filter law. Part 2 (clustersim): 1-4 real Cluster peers plus members that are down answer Cluster.Status(cid) and the unfiltered Cluster.StatusAll() at an observer while links are cut and each peer's tracker reports what the plan dictates; the peer map must hold every member exactly once: the own report of allocated reachable peers, cluster_error for allocated unreachable ones, remote for other members, unpinned everywhere for items outside the pinset. Sampling, not proof.",
+        "Views are compared by class, so pin_error vs unexpectedly_unpinned is agreement. In part 2 the trackers behind the peers are models (they report what the plan says); the filtered cluster-wide listing is not judged.",
         "DESIGN.md §6 C06", "trackersim"),
     chk("C07", "exploration",
         "A real Cluster whose consensus component is the real Raft or the real CRDT implementation (trust: Raft / explicit list / empty list / trust-all, then Trust/Distrust at plan-chosen points) is called over libp2p by real gorpc clients: every endpoint found by reflection over the five RPC service types x {self, trusted remote, untrusted remote} is called in a plan-chosen order (a complete walk of the table per walk step) and the outcome is compared with what the statement dictates: untrusted callers get only identity, version and the join handshake (default deny, also for endpoints nobody classified), local-only endpoints are refused to every remote caller, self is never refused, nothing open to an untrusted caller is refused to a trusted one, and a refused call leaves tracker, IPFS, blocks and pinset untouched. Pubsub clause (crdtsim part): updates published by a replica that nobody ever trusted never appear at the others, under partitions and latency skews. Sampling over trust histories and call orders; the endpoint x caller table is walked completely in every plan.",
@@ -103,7 +103,7 @@ def main():
             "add_only": True,
         },
         "engines": [
-            {"name": "clustersim", "path": "/verif/harness/clustersim", "serves_properties": ["C03", "C04", "C07", "C09", "C10"], "kind_free_text": "real ipfscluster.Cluster + real allocators on mocknet against model consensus/monitor/tracker/IPFS"},
+            {"name": "clustersim", "path": "/verif/harness/clustersim", "serves_properties": ["C03", "C04", "C06", "C07", "C09", "C10"], "kind_free_text": "real ipfscluster.Cluster + real allocators on mocknet against model consensus/monitor/tracker/IPFS"},
             {"name": "ipfshttpsim", "path": "/verif/harness/ipfshttpsim", "serves_properties": ["C16"], "kind_free_text": "real ipfshttp.Connector against a scripted in-memory HTTP daemon (http.DefaultTransport) under the fake clock"},
             {"name": "raftsim", "path": "/verif/harness/raftsim", "serves_properties": ["C01", "C14"], "kind_free_text": "real consensus/raft + go-libp2p-raft + hashicorp/raft + BoltDB on mocknet with tmpfs data folders, kill/restart, recording datastore"},
             {"name": "crdtsim", "path": "/verif/harness/crdtsim", "serves_properties": ["C02", "C07"], "kind_free_text": "real consensus/crdt + go-ds-crdt + ipfs-lite + gossipsub + DHT on mocknet, fault-injecting datastore"},
